@@ -9,6 +9,7 @@ mod props;
 mod refmath;
 mod svm;
 mod world1;
+mod world2;
 
 use engine::{Ctx, Tier};
 
